@@ -56,15 +56,19 @@ type readScript struct {
 	fault   int // -1 none
 	withEOF bool
 	withErr bool
+	ferr    error // error value of the fault (nil: the harness's own)
+	withLen bool  // the reader also has a Len() method, like bytes.Reader
 }
 
 var plain = readScript{cut: -1, fault: -1}
 
 type nullLogger struct{}
 
-func (nullLogger) Print(...interface{})          {}
-func (nullLogger) Printf(string, ...interface{}) {}
-func (nullLogger) Println(...interface{})        {}
+// the output is discarded, but the arguments are formatted as a real logger
+// would (their String methods run)
+func (nullLogger) Print(a ...interface{})            { fmt.Fprint(io.Discard, a...) }
+func (nullLogger) Printf(f string, a ...interface{}) { fmt.Fprintf(io.Discard, f, a...) }
+func (nullLogger) Println(a ...interface{})          { fmt.Fprintln(io.Discard, a...) }
 
 // option values created once per process: a caller may well keep its
 // options in a variable and pass the same values to every call
@@ -110,9 +114,16 @@ func (p *Profile) runCall(id int, api string, input []byte, rs readScript, opts 
 		fit.VerifResetAccumulators()
 		c.Reset = 1
 	}
-	r := newScripted(input, rs.chunks)
-	r.cut, r.fault, r.withEOF, r.withErr = rs.cut, rs.fault, rs.withEOF, rs.withErr
-	r.maxLog = maxReadsLogged + 1
+	sr := newScripted(input, rs.chunks)
+	sr.cut, sr.fault, sr.withEOF, sr.withErr = rs.cut, rs.fault, rs.withEOF, rs.withErr
+	if rs.ferr != nil {
+		sr.ferr = rs.ferr
+	}
+	sr.maxLog = maxReadsLogged + 1
+	var r io.Reader = sr
+	if rs.withLen {
+		r = lenReader{sr}
+	}
 	c.Ret.Files = []*FileProj{}
 	c.Ret.Hdr = []HdrProj{}
 	c.Ret.FileId = []*MsgProj{}
@@ -166,7 +177,7 @@ func (p *Profile) runCall(id int, api string, input []byte, rs readScript, opts 
 				h.CRC = uint16(input[12]) | uint16(input[13])<<8
 			}
 			err = h.CheckIntegrity()
-			r.pos = int(h.Size)
+			sr.pos = int(h.Size)
 			if err == nil {
 				c.Ret.Hdr = append(c.Ret.Hdr, projHeader(h))
 			}
@@ -192,12 +203,12 @@ func (p *Profile) runCall(id int, api string, input []byte, rs readScript, opts 
 		c.Ret.Hang = 1
 		return c
 	}
-	c.Ret.Consumed = r.pos
-	if r.past {
+	c.Ret.Consumed = sr.pos
+	if sr.past {
 		c.Ret.Past = 1
 	}
-	if len(r.reads) <= maxReadsLogged {
-		c.Reads = r.readsJSON()
+	if len(sr.reads) <= maxReadsLogged {
+		c.Reads = sr.readsJSON()
 	}
 	return c
 }
